@@ -360,7 +360,7 @@ def build_world(target: str | None, units: dict[str, Unit], repo: Repo, mutate=N
     parts.append(open(os.path.join(CONTRACTS, "spec_arith.rs")).read())
     parts.append(check_trait_sigs(repo, log))
     parts.append(extract_types(repo, log))
-    for f in ("spec_nodes.rs", "spec_rfc.rs", "helpers.rs", "query_trait.rs"):
+    for f in ("spec_nodes.rs", "spec_rfc.rs", "helpers.rs", "query_trait.rs", "spec_desc.rs"):
         p = os.path.join(CONTRACTS, f)
         if os.path.exists(p):
             parts.append(open(p).read())
